@@ -11,6 +11,7 @@ the code as it is does NOT satisfy are stated in full and refuted by a concrete 
 every server has a listener.
 -/
 import CaddyModel.C16.BindGlue
+import CaddyModel.C16.BindKeys
 
 namespace CaddyModel.C16
 
@@ -240,6 +241,24 @@ theorem server_arrays_parallel_D (port : String) (dflt : Option (List BindVal)) 
 
 example : serversOfD "8080" (some [⟨["127.0.0.1"], ["h1"]⟩, ⟨[""], []⟩]) [⟨"h0.test", []⟩, ⟨"h1.test", [⟨["127.0.0.2"], []⟩]⟩]
     = [⟨["127.0.0.1:8080", ":8080"], some [some ["h1"], none], [0]⟩, ⟨["127.0.0.2:8080"], none, [1]⟩] := by decide
+
+/-! ### several keys per block -/
+
+/-- the parallel-arrays invariant for site blocks with several keys -/
+theorem server_arrays_parallel_K (dflt : Option (List BindVal)) (sites : List KSite) :
+    ∀ s ∈ serversOfK dflt sites,
+      s.listenProtocols = none ∨ ∃ l, s.listenProtocols = some l ∧ l.length = s.listen.length := by
+  intro s hs
+  simp only [serversOfK, List.mem_map] at hs
+  obtain ⟨p, _, rfl⟩ := hs
+  rcases tidyProtocols_parallel (p.listeners.map (·.2)) with h | ⟨l, h1, h2⟩
+  · exact Or.inl h
+  · exact Or.inr ⟨l, h1, by simpa [serverOf] using h2⟩
+
+/-- keys on different ports of one block go to different servers, keys on one port stay together -/
+example : (serversOfK none [⟨[("a", "8080"), ("b", "8081"), ("c", "8080")], []⟩]).map
+    (fun s => (s.listen, s.blocks.flatMap keysOfCode))
+    = [([":8080"], [(0, 0), (0, 2)]), ([":8081"], [(0, 1)])] := by decide
 
 /-- protocol lines of the two counter-examples (replayed on the implementation on every run;
 model and implementation agree on them, which is the point) -/
